@@ -42,6 +42,23 @@ func newScopePrefix(prefix string) (*ScopePrefix, error) {
 	return &ScopePrefix{String: prefix, Variables: variables}, nil
 }
 
+// prefixText cuts the prefix proper out of the text matched by the Prefix
+// rule: the keyword, any run of white space and comments, then the tokens.
+func prefixText(matched string) string {
+	s := strings.TrimPrefix(matched, "prefix")
+	for {
+		s = strings.TrimLeft(s, " \t\r\n")
+		switch {
+		case strings.HasPrefix(s, "/*") && !strings.HasPrefix(s, "/**@") && strings.Contains(s, "*/"):
+			s = s[strings.Index(s, "*/")+2:]
+		case (strings.HasPrefix(s, "//") || strings.HasPrefix(s, "#")) && strings.Contains(s, "\n"):
+			s = s[strings.Index(s, "\n")+1:]
+		default:
+			return strings.TrimSpace(s)
+		}
+	}
+}
+
 func toIfaceSlice(v interface{}) []interface{} {
 	if v == nil {
 		return nil
@@ -3659,7 +3676,7 @@ func (p *parser) callonEndOfScopeError1() (interface{}, error) {
 }
 
 func (c *current) onPrefix1() (interface{}, error) {
-	prefix := strings.TrimSpace(strings.TrimPrefix(string(c.text), "prefix"))
+	prefix := prefixText(string(c.text))
 	return newScopePrefix(prefix)
 }
 
